@@ -41,6 +41,7 @@ type pollCtx struct {
 	polls    int
 	cancelAt int // -1: never
 	forced   bool
+	deadline bool // report context.DeadlineExceeded instead of context.Canceled
 	done     chan struct{}
 }
 
@@ -53,6 +54,9 @@ func (c *pollCtx) Err() error {
 	p := c.polls
 	c.polls++
 	if c.forced || (c.cancelAt >= 0 && p >= c.cancelAt) {
+		if c.deadline {
+			return context.DeadlineExceeded
+		}
 		return context.Canceled
 	}
 	return nil
@@ -62,19 +66,28 @@ func (c *pollCtx) cancel() { c.forced = true }
 // ---- listener ----------------------------------------------------------------------------------
 
 type recListener struct {
-	ctx    *pollCtx
-	events []J
-	pollAt []int
-	before func(kind string, entry *ast.RuleEntry)
+	ctx           *pollCtx
+	events        []J
+	pollAt        []int
+	before        func(kind string, entry *ast.RuleEntry)
+	cancelAtEvent int // -1: never; cancels the context while handling that callback
+}
+
+func (l *recListener) maybeCancel() {
+	if l.cancelAtEvent >= 0 && len(l.events)-1 == l.cancelAtEvent {
+		l.ctx.cancel()
+	}
 }
 
 func (l *recListener) BeginCycle(ctx context.Context, cycle uint64) {
 	l.events = append(l.events, []J{"b", cycle})
 	l.pollAt = append(l.pollAt, l.ctx.polls)
+	l.maybeCancel()
 }
 func (l *recListener) EvaluateRuleEntry(ctx context.Context, cycle uint64, entry *ast.RuleEntry, candidate bool) {
 	l.events = append(l.events, []J{"e", cycle, entry.RuleName, candidate})
 	l.pollAt = append(l.pollAt, l.ctx.polls)
+	l.maybeCancel()
 }
 func (l *recListener) ExecuteRuleEntry(ctx context.Context, cycle uint64, entry *ast.RuleEntry) {
 	l.events = append(l.events, []J{"x", cycle, entry.RuleName})
@@ -82,6 +95,7 @@ func (l *recListener) ExecuteRuleEntry(ctx context.Context, cycle uint64, entry 
 	if l.before != nil {
 		l.before("x", entry)
 	}
+	l.maybeCancel()
 }
 
 // ---- data context -------------------------------------------------------------------------------
@@ -296,9 +310,9 @@ func classify(err error, ctxErr bool) string {
 		return "ok"
 	}
 	msg := err.Error()
-	wraps := errors.Is(err, context.Canceled)
+	wraps := errors.Is(err, context.Canceled) || errors.Is(err, context.DeadlineExceeded)
 	switch {
-	case err == context.Canceled:
+	case err == context.Canceled || err == context.DeadlineExceeded:
 		return "ctx"
 	case strings.HasPrefix(msg, "the GruleEngine successfully selected rule candidate for execution after"):
 		return "limit"
@@ -377,17 +391,23 @@ func (w *world) do(op map[string]J) (res map[string]J) {
 			cancelAt = int(v.(float64))
 		}
 		pc := newPollCtx(cancelAt)
+		if op["ctxErr"] == "deadline" {
+			pc.deadline = true
+		}
 		f.rc.cancel = pc.cancel
 		eng := &engine.GruleEngine{MaxCycle: uint64(op["max"].(float64))}
 		if b, ok := op["retErr"].(bool); ok {
 			eng.ReturnErrOnFailedRuleEvaluation = b
 		}
-		main := &recListener{ctx: pc}
+		main := &recListener{ctx: pc, cancelAtEvent: -1}
+		if v, ok := op["cancelAtEvent"]; ok && v != nil {
+			main.cancelAtEvent = int(v.(float64))
+		}
 		eng.Listeners = []engine.GruleEngineListener{main}
 		extra := []*recListener{}
 		if n, ok := op["listeners"].(float64); ok {
 			for i := 0; i < int(n); i++ {
-				l := &recListener{ctx: pc}
+				l := &recListener{ctx: pc, cancelAtEvent: -1}
 				extra = append(extra, l)
 				eng.Listeners = append(eng.Listeners, l)
 			}
